@@ -115,7 +115,7 @@ class C07(Profile):
                                  rich=[k for k in rich if rng.random() < 0.6],
                                  common=[k for k in common if rng.random() < 0.6 and k != 'object_marking_refs'],
                                  xsib=rng.random() < 0.35, init_om=rng.sample(C.MARKING_IDS, rng.choice([0, 0, 1, 2])),
-                                 init_gm=rng.random() < 0.4))
+                                 init_gm=rng.random() < 0.4, xlong=rng.random() < 0.3))
         cfg = {'rels': rng.sample(C05.REL_NAMES, rng.randrange(3, len(C05.REL_NAMES) + 1))}
         kinds = U.swarm_weights(rng, MUTATIONS + QUERIES + ['meta'], keep=0.85, must=('add', 'get'))
         ops = []
@@ -165,6 +165,11 @@ class C07(Profile):
             d['x_foo'] = 'v1'
             d['x_foo_bar'] = 'v2'
             d['x_nest'] = {'aa': 'x', 'aab': {'deep': [1, 2]}}
+        if sd.get('xlong'):
+            # selectors whose text does not sort the way the walk over the object does: list indices >= 10, and a key
+            # that extends a sibling container's key with a character below '.'
+            d['x_long'] = ['e%d' % n for n in range(13)]
+            d['x_sib'] = {'src': {'a': 'x', 'z': ['y']}, 'src-id': 'abc', 'src-': 'def', 'sr': 'g', 'src_': 'h'}
         if sd.get('init_om'):
             d['object_marking_refs'] = list(sd['init_om'])
         if sd.get('init_gm'):
